@@ -5,7 +5,10 @@
           backends = [[cluster [[sub [[addr name weight] ...]] ...]] ...]     (distinct cluster / sub names; addr may repeat)
      [2 cluster sub addr kind v]   on that backend (if present): kind 0 SetAvail(v<>0), 1 connNum += v, 2 failNum += v
    output: per op; stops after a panic
-     reload -> [err dump [orphans closed]] | [-2]
+     reload -> [err dump [orphans closed] sel] | [-2]
+          sel  = [[cluster [pick ...] [errcode ...]] ...]: what BalanceGslb.Balance actually returned over every hash
+                 residue and 64 picks each (cross retry off): pick = sub*100+addr, sorted sets; codes 1 no sub-cluster,
+                 2 no backend, 9 panic
           dump = [[cluster [[sub weight [[addr name weight avail conn fail closed] ... sorted by addr]] ... list order]] ... sorted]
           orphans = backend objects seen in the table earlier and not in it now; closed = those whose closeChan is closed
      poke -> 0 *)
@@ -55,6 +58,8 @@ Definition enc_sub (s : sub) : val :=
   VL [VZ (sname s); VZ (sweight s); VL (map enc_bk (fold_right ins_bk [] (sbks s)))].
 Definition enc_clu (c : clu) : val := VL [VZ (cname c); VL (map enc_sub (csubs c))].
 Definition enc_tbl (t : tbl) : val := VL (map enc_clu (clus t)).
+Definition enc_sel (t : tbl) : val :=
+  VL (map (fun c => let '(p, e) := selected c in VL [VZ (cname c); vLZ p; vLZ e]) (clus t)).
 Definition countb {A} (f : A -> bool) (l : list A) : Z := Z.of_nat (length (filter f l)).
 
 (* (observation, gslb error path taken?) per op *)
@@ -66,7 +71,8 @@ Fixpoint run_rops (t : tbl) (ops : list rop) : list (val * bool) :=
     match table_reload gs bc t with
     | None => [(VL [VZ (-2)], gslb_err_path gs t)]
     | Some (t', gerr, err) =>
-      (VL [vbool err; enc_tbl t'; VL [VZ (Z.of_nat (length (orphans t'))); VZ (countb (fun b => krel b >=? 1) (orphans t'))]], gerr)
+      (VL [vbool err; enc_tbl t'; VL [VZ (Z.of_nat (length (orphans t'))); VZ (countb (fun b => krel b >=? 1) (orphans t'))];
+           enc_sel t'], gerr)
         :: run_rops t' r
     end
   end.
@@ -161,12 +167,35 @@ Definition conf_ok (gs : list (Z * gconf)) (bc : list (Z * list (Z * bconf))) (d
       end) cl
   | _ => false
   end.
+(* selected = eligible: after a reload without error the set of (sub-cluster, backend) pairs that Balance returns is
+   exactly the set of available positive-weight backends of the positive-weight sub-clusters shown in the dump
+   (added targets are selectable, drained / removed / unavailable ones are not selected), and no call fails for lack
+   of a sub-cluster or panics *)
+Definition bk_elig_val (v : val) : bool :=
+  match v with VL [_; _; VZ w; VZ av; _; _; VZ cl] => (w >? 0) && negb (av =? 0) && (cl =? 0) | _ => false end.
+Definition expected_sel (cv : val) : list Z :=
+  sort_dedup (flat_map (fun sv => match sv with
+                                  | VL [VZ sn; VZ sw; VL bl] =>
+                                    if sw >? 0 then map (fun bv => sn * 100 + key_of bv) (filter bk_elig_val bl) else []
+                                  | _ => [] end) (clu_subs cv)).
+Definition sel_ok (d sel : val) : bool :=
+  match d, sel with
+  | VL cl, VL sl =>
+    (length cl =? length sl)%nat &&
+    forallb (fun p => match snd p with
+                      | VL [VZ c; pk; er] =>
+                        (c =? key_of (fst p)) && val_eqb pk (vLZ (expected_sel (fst p))) &&
+                        match as_LZ er with Some l => forallb (fun e => e =? 2) l | None => false end
+                      | _ => false end) (combine cl sl)
+  | _, _ => false
+  end.
 Fixpoint prop_ops (ops : list rop) (obs : list val) (prev : val) : bool :=
   match ops, obs with
   | [], [] => true
   | OPoke c s a k x :: r, VZ 0 :: obs' => prop_ops r obs' (poke_dump c s a k x prev)
-  | OReload gs bc :: r, VL [e; d; VL [VZ n; VZ m]] :: obs' =>
-    dump_ok d && (n =? m) && kept_ok prev d && (negb (val_eqb e (VZ 0)) || conf_ok gs bc d) && prop_ops r obs' d
+  | OReload gs bc :: r, VL [e; d; VL [VZ n; VZ m]; sel] :: obs' =>
+    dump_ok d && (n =? m) && kept_ok prev d && (negb (val_eqb e (VZ 0)) || (conf_ok gs bc d && sel_ok d sel)) &&
+    prop_ops r obs' d
   | _, _ => false        (* includes a panic observation [-2] and truncated output *)
   end.
 Definition prop_C09 (i o : val) : bool :=
